@@ -941,4 +941,141 @@ theorem unifyF_post : ∀ f, RecOk (unifyF f)
         have P := unifyNorm_post (unifyF_post f) hW hl hr h
         exact ⟨P.wf, P.ext, fun hn => Eqv.of_ext_norm P.ext hl hr (P.eqv hn)⟩
 
+
+/-! ## The theorems -/
+
+/-- `t` has the normal form `x` in `σ` (with some fuel; the answer does not depend on it:
+`normF_functional`) -/
+def NF (σ : Store) (t x : Ty) : Prop := ∃ f, normF f σ t = some x
+
+/-- **Soundness of `unify`.**  If `unify l r` returns `true`, leaving the store `σ'`, then `l` and `r`
+have normal forms in `σ'` and these agree: they are equal up to array lengths one of which is
+`ARRAY_WILDCARD_LEN`.  (Plain equality does not hold for the real code: `unify_sound_eq_fails`.) -/
+theorem unify_sound {f σ l r σ'} (hW : WF σ) (h : unifyF f σ l r = some (none, σ')) :
+    ∃ x y, NF σ' l x ∧ NF σ' r y ∧ agree x y = true := by
+  obtain ⟨f1, g1, x, y, hx, hy, ha⟩ := (unifyF_post f σ l r _ hW h).eqv rfl
+  exact ⟨x, y, ⟨f1, hx⟩, ⟨g1, hy⟩, ha⟩
+
+/-- … and when neither normal form mentions the wildcard array length, `norm σ' l = norm σ' r`. -/
+theorem unify_sound_eq {f σ l r σ' x y} (hW : WF σ) (h : unifyF f σ l r = some (none, σ'))
+    (hx : NF σ' l x) (hy : NF σ' r y) (wx : noWild x = true) (wy : noWild y = true) : x = y := by
+  obtain ⟨x', y', ⟨_, hx'⟩, ⟨_, hy'⟩, ha⟩ := unify_sound hW h
+  obtain ⟨_, hx⟩ := hx
+  obtain ⟨_, hy⟩ := hy
+  cases normF_functional hx hx'
+  cases normF_functional hy hy'
+  exact agree_eq_of_noWild _ _ ha wx wy
+
+/-- **`unify` only adds information**, whatever its outcome: an equation between normal forms that
+held before the call still holds after it (also after a failing call, which keeps the bindings made
+before the failure). -/
+theorem unify_extends {f σ l r d σ'} (hW : WF σ) (h : unifyF f σ l r = some (d, σ')) :
+    ∀ a b x, NF σ a x → NF σ b x → ∃ y, NF σ' a y ∧ NF σ' b y := by
+  intro a b x ⟨_, ha⟩ ⟨_, hb⟩
+  obtain ⟨K, H⟩ := (unifyF_post f σ l r _ hW h).ext
+  obtain ⟨y, hy1, hy2⟩ := H _ _ _ ha
+  obtain ⟨y', hy1', hy2'⟩ := H _ _ _ hb
+  cases normF_functional hy2 hy2'
+  exact ⟨y, ⟨_, hy1⟩, ⟨_, hy1'⟩⟩
+
+/-- … in particular a type keeps being equal to its own earlier normal form -/
+theorem unify_extends_norm {f σ l r d σ'} (hW : WF σ) (h : unifyF f σ l r = some (d, σ')) :
+    ∀ t t', NF σ t t' → ∃ y, NF σ' t y ∧ NF σ' t' y := by
+  intro t t' ⟨_, ht⟩
+  obtain ⟨K, H⟩ := (unifyF_post f σ l r _ hW h).ext
+  obtain ⟨y, hy1, hy2⟩ := H _ _ _ ht
+  exact ⟨y, ⟨_, hy1⟩, ⟨_, hy2⟩⟩
+
+/-- **The occurs check keeps the store acyclic**, for every outcome of `unify` (and the table stays a
+valid union-find table). -/
+theorem acyclic_invariant {f σ l r d σ'} (hW : WF σ) (hA : Acyclic σ) (h : unifyF f σ l r = some (d, σ')) :
+    Acyclic σ' ∧ WF σ' :=
+  have P := unifyF_post f σ l r _ hW h
+  ⟨hA.of_ext P.ext, P.wf⟩
+
+/-- `norm` is idempotent (same fuel suffices) -/
+theorem norm_idempotent {f σ t t'} (hW : WF σ) (h : normF f σ t = some t') : normF f σ t' = some t' :=
+  normF_idem hW f t t' h
+
+/-- a normal form mentions only root keys that have no value -/
+theorem norm_no_bound_var {f σ t t' v} (hW : WF σ) (h : normF f σ t = some t') (hv : occursOk v t' = false) :
+    σ.rep v = v ∧ σ.val v = none :=
+  normF_unbound hW f t t' v h hv
+
+/-! ### `norm` terminates on an acyclic store -/
+
+mutual
+/-- **`norm` cannot loop on an acyclic store**: every type has a normal form. -/
+theorem norm_total {σ} (hA : Acyclic σ) : ∀ t, ∃ x, NF σ t x
+  | .tvar v => by obtain ⟨f, t, h⟩ := hA v; exact ⟨t, f, h⟩
+  | .unit => ⟨_, 1, rfl⟩ | .bool => ⟨_, 1, rfl⟩ | .string => ⟨_, 1, rfl⟩
+  | .int _ _ => ⟨_, 1, rfl⟩ | .float _ => ⟨_, 1, rfl⟩ | .enum _ => ⟨_, 1, rfl⟩ | .struct _ => ⟨_, 1, rfl⟩
+  | .dyn _ => ⟨_, 1, rfl⟩ | .param _ => ⟨_, 1, rfl⟩
+  | .tuple ts => by
+    obtain ⟨f, xs, h⟩ := norm_totalL hA ts
+    exact ⟨.tuple xs, f+1, by rw [normF_tuple, h]; rfl⟩
+  | .app t args => by
+    obtain ⟨x, f1, hx⟩ := norm_total hA t
+    obtain ⟨f, xs, h⟩ := norm_totalL hA args
+    exact ⟨.app x xs, max f f1 + 1, by
+      rw [normF_app, normF_le hx (show f1 ≤ max f f1 by omega)]; simp [mapO_normF_le h (show f ≤ max f f1 by omega)]⟩
+  | .array n e => by
+    obtain ⟨x, f1, hx⟩ := norm_total hA e
+    exact ⟨.array n x, f1+1, by rw [normF_array, hx]; rfl⟩
+  | .vec e => by
+    obtain ⟨x, f1, hx⟩ := norm_total hA e
+    exact ⟨.vec x, f1+1, by rw [normF_vec, hx]; rfl⟩
+  | .ref e => by
+    obtain ⟨x, f1, hx⟩ := norm_total hA e
+    exact ⟨.ref x, f1+1, by rw [normF_ref, hx]; rfl⟩
+  | .func ps r => by
+    obtain ⟨x, f1, hx⟩ := norm_total hA r
+    obtain ⟨f, xs, h⟩ := norm_totalL hA ps
+    exact ⟨.func xs x, max f f1 + 1, by
+      rw [normF_func, mapO_normF_le h (show f ≤ max f f1 by omega)]; simp [normF_le hx (show f1 ≤ max f f1 by omega)]⟩
+theorem norm_totalL {σ} (hA : Acyclic σ) : ∀ ts : List Ty, ∃ f xs, mapO (normF f σ) ts = some xs
+  | [] => ⟨0, [], rfl⟩
+  | t :: ts => by
+    obtain ⟨x, f1, hx⟩ := norm_total hA t
+    obtain ⟨f2, xs, hxs⟩ := norm_totalL hA ts
+    exact ⟨max f1 f2, x :: xs, mapO_cons_some.2 ⟨x, xs, normF_le hx (by omega), mapO_normF_le hxs (by omega), rfl⟩⟩
+end
+
+/-! ### the stores the typer can reach -/
+
+theorem empty_wf : WF Store.empty := fun _ => rfl
+theorem empty_acyclic : Acyclic Store.empty := fun v => ⟨1, .tvar v, by rw [normF_tvar]; rfl⟩
+theorem fresh_wf {σ} (h : WF σ) : WF σ.fresh := h
+/-- `norm` reads `rep` and `val` only -/
+theorem normF_congr {σ τ : Store} (h1 : σ.rep = τ.rep) (h2 : σ.val = τ.val) : ∀ f, normF f σ = normF f τ
+  | 0 => by funext t; simp
+  | f+1 => by
+    have IH := normF_congr h1 h2 f
+    funext t
+    cases t with
+    | tvar v => rw [normF_tvar, normF_tvar, IH, h1, h2]
+    | tuple ts => rw [normF_tuple, normF_tuple, IH]
+    | app t args => rw [normF_app, normF_app, IH]
+    | array n e => rw [normF_array, normF_array, IH]
+    | vec e => rw [normF_vec, normF_vec, IH]
+    | ref e => rw [normF_ref, normF_ref, IH]
+    | func ps r => rw [normF_func, normF_func, IH]
+    | _ => simp
+theorem fresh_acyclic {σ} (h : Acyclic σ) : Acyclic σ.fresh := fun v => by
+  obtain ⟨f, t, ht⟩ := h v
+  exact ⟨f, t, by rw [normF_congr (σ := σ.fresh) (τ := σ) rfl rfl]; exact ht⟩
+
+/-- a store built from the empty table by `new_key` and (returning) calls of `unify` -/
+inductive Reachable : Store → Prop
+  | empty : Reachable Store.empty
+  | fresh {σ} : Reachable σ → Reachable σ.fresh
+  | unify {σ f l r d σ'} : Reachable σ → unifyF f σ l r = some (d, σ') → Reachable σ'
+
+/-- **Every reachable store is acyclic** (so `norm`, `subst_ty`, … terminate on it: `norm_total`). -/
+theorem reachable_acyclic {σ} (h : Reachable σ) : WF σ ∧ Acyclic σ := by
+  induction h with
+  | empty => exact ⟨empty_wf, empty_acyclic⟩
+  | fresh _ ih => exact ⟨fresh_wf ih.1, fresh_acyclic ih.2⟩
+  | unify _ hu ih => exact (acyclic_invariant ih.1 ih.2 hu).symm
+
 end Goml.Unify
